@@ -386,7 +386,9 @@ class Decompiler(object):
                 node = node.targets
             top.target = node
         else:
-            stack.append(node)
+            # a store that is not part of a loop target: an assignment expression `(y := expr)`
+            throw(DecompileError('Assignment expressions are not supported, '
+                                 'try to pass query as string, e.g. select("x for x in Something")'))
 
     BINARY_POWER        = binop(ast.Pow)
     BINARY_MULTIPLY     = binop(ast.Mult)
@@ -788,6 +790,7 @@ class Decompiler(object):
 
         expr = decompiler.stack.pop()
         clause = ast.BoolOp(op=clausetype(), values=[expr])
+        clause.explicit = clausetype is ast.Or  # the jump sense is already in the comparison (see conditional_jump_new)
         clause.endpos = endpos
         decompiler.set_target(endpos, clause)
         return clause
